@@ -295,4 +295,7 @@ theorem gen_runPlainPlan : type_of% @HC.gl_runPlainPlan := @HC.gl_runPlainPlan
 theorem gen_multiply_plain_ntt_eq : type_of% @HC.gc_multiply_plain_ntt_eq := @HC.gc_multiply_plain_ntt_eq
 theorem gen_multiply_plain_ntt_refuses : type_of% @HC.gc_multiply_plain_ntt_refuses := @HC.gc_multiply_plain_ntt_refuses
 
+/-- `multiply_plain_normal` (coefficient-form operands): the ROUTE (monomial shortcut / generic NTT route, with / without the fast plain lift; the
+    data steps are codes, the last of the generic route being the FULL inverse transform `intt_ps`) and the CKKS scale rule at both exits -/
+theorem gen_multiply_plain_normal_plan_eq : type_of% @HC.gl_multiply_plain_normal_plan_eq := @HC.gl_multiply_plain_normal_plan_eq
 end HC.C06
